@@ -561,7 +561,7 @@ class ProgramOptionsGetters(Contract):
             mem = e.get('name')
             if opt not in bound:
                 raise ExtractionError(f'ProgramOptions: option {opt} is not registered with a bound variable (renamed?)')
-            ok = mem in bound[opt]
+            ok = bound[opt] == {mem}       # EVERY registration of the option (command-line group, config-file group) is bound to the returned member
             ntrivial += 1
             ex.obls.append(Obligation(f'ProgramOptions::{g}#returns_value_of_option.{opt}', set(tags) | {'C20'}, [], z3.BoolVal(ok), 'postcondition', line_of(fns[0]),
                                       f'{g}() returns member {mem}; option {opt} is bound to {sorted(bound[opt])}'))
@@ -1575,7 +1575,8 @@ class ProgramOptionsPrecedence(Contract):
     tu = 'src/IO/ProgramOptions.cpp'
     tags = {'C20'}
     ALIASES = {'SyncFreq': 'SynchrotronFrequency', 'RFVoltage': 'AcceleratingVoltage', 'steps': 'StepsPerTs'}
-    replay = lambda self, o, model, pid: {'driver': 'main', 'scenarios': ['options']}
+    replay = lambda self, o, model, pid: {'driver': 'main', 'scenarios': ['restart'] if pid == 'C11' else ['options']}
+    tags = {'C20', 'C11', 'C10', 'C15'}
 
     def custom_verify(self, scratch, tc):
         tu = tc.get(self.tu)
@@ -1588,8 +1589,8 @@ class ProgramOptionsPrecedence(Contract):
         ex.default_tags = {'C20'}
         obls = []
 
-        def ob(label, ok, note):
-            obls.append(Obligation(f'ProgramOptions::parse#{label}', {'C20'}, [], z3.BoolVal(bool(ok)), 'postcondition', None, note))
+        def ob(label, ok, note, tags=frozenset({'C20'})):
+            obls.append(Obligation(f'ProgramOptions::parse#{label}', set(tags), [], z3.BoolVal(bool(ok)), 'postcondition', None, note))
 
         def callee_name(n):
             c_ = n['inner'][0]
@@ -1668,6 +1669,30 @@ class ProgramOptionsPrecedence(Contract):
                     retf = rets and all(any(y.get('kind') == 'CXXBoolLiteralExpr' and y.get('value') is False for y in _walk(r)) for r in rets)
                     refused = bool(says and retf)
         ob('missing_config_file_refused_with_a_message', refused, 'a config file that does not exist (other than the implicit default.cfg) is reported and parse() returns false')
+        # ---- (4b) A-PO-THROW reaches main: nothing inside parse() swallows the exception of the parsers / store / notify
+        # (a handler that returns or falls through turns "unknown option / malformed value" into parse() == false or true,
+        # which main treats as a regular end or as success); a handler that rethrows is fine
+        swallowed = []
+        for n in _walk(body(parse)):
+            if n.get('kind') != 'CXXTryStmt':
+                continue
+            tryb = n['inner'][0]
+            risky = sorted(set(callee_name(x) for x in _walk(tryb) if x.get('kind') == 'CallExpr' and callee_name(x) in ('store', 'notify', 'parse_command_line', 'parse_config_file')))
+            if not risky:
+                continue
+            for h in n['inner'][1:]:
+                if h.get('kind') != 'CXXCatchStmt':
+                    continue
+                hb = h['inner'][-1]
+                top = hb.get('inner', []) if hb.get('kind') == 'CompoundStmt' else [hb]
+                last = top[-1] if top else {}
+                while last.get('kind') in ('ExprWithCleanups',) and last.get('inner'):
+                    last = last['inner'][0]
+                rethrows = last.get('kind') == 'CXXThrowExpr' and not any(x.get('kind') == 'ReturnStmt' for x in _walk(hb))
+                if not rethrows:
+                    swallowed.append((line_of(h) if 'range' in h or 'loc' in h else 0, risky))
+        ob('parse.errors_of_the_option_parsers_reach_main', not swallowed,
+           f'handlers inside parse() around store/notify/parse_* that do not rethrow: {swallowed} (A-PO-THROW: the exception is what carries "unknown option" / "malformed value" to main, which turns it into the failure status)')
         # ---- (5) main's prologue: errors end the program with a failure status, before anything is simulated
         mtu = tc.get('src/main.cpp', 'main')
         mfn = mtu.function('main')
@@ -1685,10 +1710,35 @@ class ProgramOptionsPrecedence(Contract):
                     if rets and all(v and v[0] != 0 for v in vals) and says and catches_std:
                         ok_fail = True
                 tryb = st_['inner'][0]
+                is_parse = lambda y: y.get('kind') == 'CXXMemberCallExpr' and y['inner'][0].get('name') == 'parse'
+                negated = lambda c_: any(y.get('kind') == 'UnaryOperator' and y.get('opcode') == '!' for y in _walk(c_))
+                shape = None
                 for x in _walk(tryb):
-                    if x.get('kind') == 'IfStmt' and any(y.get('kind') == 'CXXMemberCallExpr' and y['inner'][0].get('name') == 'parse' for y in _walk(x['inner'][0])) \
-                            and any(y.get('kind') == 'UnaryOperator' and y.get('opcode') == '!' for y in _walk(x['inner'][0])):
-                        ok_false = any(y.get('kind') == 'ReturnStmt' for y in _walk(x['inner'][1]))
+                    if x.get('kind') == 'IfStmt' and any(is_parse(y) for y in _walk(x['inner'][0])):
+                        # (a) if (!opts.parse(..)) return ...;
+                        shape = 'tested'
+                        ok_false = negated(x['inner'][0]) and any(y.get('kind') == 'ReturnStmt' for y in _walk(x['inner'][1]))
+                if shape is None:
+                    # (b) flag = opts.parse(..);  [declared before or in the try]  ...  if (!flag) return ...;  as the next use of flag
+                    holder = None
+                    for x in _walk(tryb):
+                        if x.get('kind') == 'BinaryOperator' and x.get('opcode') == '=' and any(is_parse(y) for y in _walk(x['inner'][1])):
+                            holder = next(((y.get('referencedDecl') or {}).get('id') for y in _walk(x['inner'][0]) if y.get('kind') == 'DeclRefExpr'), None)
+                    if holder is not None:
+                        shape = 'stored'
+                        for later in stmts[i_ + 1:]:
+                            uses = [y for y in _walk(later) if y.get('kind') == 'DeclRefExpr' and (y.get('referencedDecl') or {}).get('id') == holder]
+                            if not uses:
+                                if any(y.get('kind') in ('CXXConstructExpr', 'CXXNewExpr', 'CXXMemberCallExpr') for y in _walk(later)):
+                                    break       # something else happens before the flag is looked at
+                                continue
+                            if later.get('kind') == 'IfStmt' and negated(later['inner'][0]) and any(y.get('kind') == 'ReturnStmt' for y in _walk(later['inner'][1])):
+                                ok_false = True
+                            break
+                    elif any(is_parse(y) for y in tryb.get('inner', []) if isinstance(y, dict)):
+                        shape = 'discarded'     # opts.parse(..); as a statement of its own: the answer is ignored
+                if shape is None:
+                    raise ExtractionError("main: what becomes of the result of opts.parse() was not understood")
                 break
         if try_idx is None:
             raise ExtractionError('main: the try block around opts.parse() was not found')
@@ -1715,6 +1765,62 @@ class ProgramOptionsPrecedence(Contract):
                     mem = [y.get('name') for y in _walk(x) if y.get('kind') == 'MemberExpr']
                     if mem:
                         bound.setdefault(nm.split(',')[0], set()).add(mem[0])
+        # ---- (5a) one option, one variable: an option registered for the command line AND for config files is bound to the same
+        # variable in both (otherwise the value reaches its getter from one source only)
+        split_ = {nm: sorted(ms) for nm, ms in sorted(bound.items()) if len(ms) > 1}
+        ob('registration.every_option_is_bound_to_one_variable', not split_, f'options whose registrations are bound to different variables: {split_}')
+        # ---- (5b) the effective value is the parsed one: parse() rewrites a variable bound to an option only to turn the documented
+        # spelling of "none" ("/dev/null" for the file-name options) into the empty name, under a test of exactly that
+        all_bound = set(m for ms in bound.values() for m in ms)
+        rewrites = []
+
+        def _writes(node, guards):
+            k = node.get('kind')
+            if k == 'IfStmt':
+                inner = node.get('inner', [])
+                cond = inner[0] if inner else {}
+                _writes(cond, guards)
+                if len(inner) > 1:
+                    _writes(inner[1], guards + [(cond, True)])
+                if len(inner) > 2:
+                    _writes(inner[2], guards + [(cond, False)])
+                return
+            tgt = None
+            if k == 'CXXMemberCallExpr' and node['inner'][0].get('kind') == 'MemberExpr' and node['inner'][0].get('name') in ('clear', 'assign', 'append', 'swap', 'erase', 'resize', 'push_back', 'insert', 'replace'):
+                tgt = [y.get('name') for y in _walk(node['inner'][0]['inner'][0]) if y.get('kind') == 'MemberExpr']
+            elif k == 'CXXOperatorCallExpr' and len(node.get('inner', [])) >= 2 and (callee_name(node) or '').startswith('operator') and (callee_name(node) or '') in ('operator=', 'operator+='):
+                tgt = [y.get('name') for y in _walk(node['inner'][1]) if y.get('kind') == 'MemberExpr']
+            elif k in ('BinaryOperator', 'CompoundAssignOperator') and (node.get('opcode') or '').endswith('=') and node.get('opcode') not in ('==', '!=', '<=', '>='):
+                tgt = [y.get('name') for y in _walk(node['inner'][0]) if y.get('kind') == 'MemberExpr']
+            elif k == 'UnaryOperator' and node.get('opcode') in ('++', '--'):
+                tgt = [y.get('name') for y in _walk(node['inner'][0]) if y.get('kind') == 'MemberExpr']
+            if tgt and tgt[0] in all_bound:
+                m_ = tgt[0]
+
+                def is_none_test(c_, pol):
+                    if not pol:
+                        return False
+                    while c_.get('kind') in ('ImplicitCastExpr', 'ParenExpr', 'ExprWithCleanups', 'MaterializeTemporaryExpr') and c_.get('inner'):
+                        c_ = c_['inner'][0]
+                    if c_.get('kind') != 'CXXOperatorCallExpr' or callee_name(c_) != 'operator==':
+                        return False
+                    mems_ = [y.get('name') for y in _walk(c_) if y.get('kind') == 'MemberExpr']
+                    lits_ = [y.get('value', '').strip('"') for y in _walk(c_) if y.get('kind') == 'StringLiteral']
+                    return mems_ == [m_] and lits_ == ['/dev/null']
+                if not any(is_none_test(c_, pol) for c_, pol in guards):
+                    rewrites.append((m_, line_of(node) if ('range' in node or 'loc' in node) else 0))
+            for c_ in node.get('inner', []) or []:
+                if isinstance(c_, dict):
+                    _writes(c_, guards)
+        _writes(body(parse), [])
+        # the same statement per quantity other properties rest on: the start file main gets is the one the user named (C11: a file
+        # that cannot be used is REFUSED by main -- that needs its name to arrive), likewise the results file (C10) and the tracking file (C15)
+        for opt_, tg_ in (('InitialDistFile', {'C11', 'C20'}), ('output', {'C10', 'C20'}), ('tracking', {'C15', 'C20'})):
+            ms_ = bound.get(opt_, set())
+            hit_ = [r_ for r_ in rewrites if r_[0] in ms_]
+            ob(f'parse.file_name_of_{opt_}_reaches_main_as_given', bool(ms_) and not hit_, f'option {opt_} is bound to {sorted(ms_)}; writes to it in parse() outside the "/dev/null" test: {hit_}', tags=frozenset(tg_))
+        ob('parse.option_values_are_not_rewritten_after_parsing', not rewrites,
+           f'writes in parse() to variables bound to options outside a test `<that variable> == "/dev/null"`: {rewrites} (the effective value must be the one given on the command line, else in the config file, else the default)')
         main_calls = set(x['inner'][0].get('name') for x in _walk(mfn) if x.get('kind') == 'CXXMemberCallExpr' and x['inner'][0].get('kind') == 'MemberExpr')
         for nm in sorted(ign):
             mems = bound.get(nm, set())
